@@ -7,6 +7,7 @@ arch with arguments runs a program under a specific architecture (delegate).
 from __future__ import annotations
 
 from dippy.cli import Classification, HandlerContext
+from dippy.core.bash import bash_join
 
 COMMANDS = ["arch"]
 
@@ -50,5 +51,5 @@ def classify(ctx: HandlerContext) -> Classification:
         return Classification("allow", description="arch")
 
     # Delegate to inner command
-    inner_cmd = " ".join(tokens[i:])
+    inner_cmd = bash_join(tokens[i:])
     return Classification("delegate", inner_command=inner_cmd)
